@@ -134,9 +134,15 @@ func buildTarGz(ents []tarEnt) []byte {
 		case 'r':
 			h.Typeflag = tar.TypeReg
 			h.Size = int64(len("payload"))
+			if archivePreserve {
+				h.Mode = 0o600
+			}
 		case 'd':
 			h.Typeflag = tar.TypeDir
 			h.Mode = 0o755
+			if archivePreserve {
+				h.Mode = 0o700
+			}
 		case 's':
 			h.Typeflag = tar.TypeSymlink
 			h.Linkname = e.target
@@ -524,6 +530,22 @@ func runC11(seed int64, tier string, sc *Script) map[string]any {
 	runOne("hard-preserve-mode", []tarEnt{{'h', "d/a", "cfile"}}, "")
 	runOne("hard-preserve-mode", []tarEnt{{'d', "d/s", ""}, {'h', "d/s/l1", "cfile"}, {'d', "d/t", ""}}, "")
 	runOne("sym-preserve-mode", []tarEnt{{'s', "d/a", "../../cfile"}}, "")
+	// a directory or regular entry at the very path of a link the directory already holds:
+	// the mode it carries is applied by name
+	archivePrepop = func(sb *sandbox) {
+		os.MkdirAll(filepath.Join(sb.wd, "d"), 0o755)
+		os.Symlink(filepath.Join(sb.root, "outside"), filepath.Join(sb.wd, "d", "out"))
+		os.Symlink(filepath.Join(sb.root, "outside", "victim"), filepath.Join(sb.wd, "d", "vlink"))
+		os.Symlink("../../../../outside/dir", filepath.Join(sb.wd, "d", "rdir"))
+	}
+	runOne("prepop-link-preserve-mode", []tarEnt{{'d', "d/out", ""}}, "")
+	runOne("prepop-link-preserve-mode", []tarEnt{{'d', "d/rdir", ""}}, "")
+	runOne("prepop-link-preserve-mode", []tarEnt{{'r', "d/vlink", ""}}, "")
+	runOne("prepop-link-preserve-mode", []tarEnt{{'d', "d/out", ""}, {'r', "d/out/victim", ""}}, "")
+	archivePrepop = nil
+	// ... and of a link an earlier entry of the same archive created (lexically inside)
+	runOne("chain-preserve-mode", []tarEnt{{'d', "d/s", ""}, {'s', "d/s/l1", ".."}, {'s', "d/s/l2", "l1/../.."}, {'d', "d/s/l2", ""}}, "")
+	runOne("chain-preserve-mode", []tarEnt{{'d', "d/s", ""}, {'s', "d/s/l1", ".."}, {'s', "d/s/l2", "l1/../../victim"}, {'r', "d/s/l2", ""}}, "")
 	archivePreserve = false
 	// symbolic links whose absolute target starts with the working directory's path but leaves
 	// it through "..", and (archive pushed under the title ".") a relative target into the
